@@ -379,3 +379,42 @@ V('ix9-inline-lang', ['C07'], T2,
 V('pd8-upper-unpinned', ['C01'], 'yalafi/packages/glossaries.py',
   "        toks[i].txt = toks[i].txt[0].upper()\n        # NB: upper() may lengthen the text ('ß' --> 'SS')\n        toks[i].pos_fix = True\n",
   "        toks[i].txt = toks[i].txt[0].upper()\n", 'PD8')
+
+# ---------------------------------------------------------------- round-2 rules
+V('mt6-nonumber', ['C11', 'C10'], PA, "            '\\\\nonumber',\n", "", 'MT6')
+V('lc2-context', ['C12'], U,
+  "    repl = parms.parser_lang_settings[lang].lang_change_repl", "    repl = parms.lang_context.lang_change_repl", 'LC2')
+V('ml4-last-only', ['C12'], P,
+  "                lang_toks = [t for t in buf if type(t) is defs.LanguageToken]",
+  "                lang_toks = [t for t in buf if type(t) is defs.LanguageToken][-1:]", 'ML4')
+V('okv-count-on', ['C01', 'C13'], U,
+  "                        + [i_pos[cur+m_len-1]] * (r_len - m_len))",
+  "                        + [i_pos[cur+m_len-1] + 1] * (r_len - m_len))", 'OKV')
+V('okv-delim', ['C14', 'C15'], PR,
+  "charmap_tot += [charmap_tot[-1]] * len(delim)", "charmap_tot += [abs(charmap_tot[-1]) + 1] * len(delim)", 'OKV')
+V('th3-end-after', ['C14', 'C16'], GH,
+  "        h.end = abs(charmap[max(beg, end - 1)])         # see issue #21", "        h.end = abs(charmap[end]) - 1", 'TH3')
+V('th3-empty', ['C16'], GH, "        if h.unsure or h.end <= h.beg:", "        if h.unsure or h.end < h.beg:", 'TH3')
+V('cm2-unanchored', ['C16'], 'yalafi/shell/utils.py',
+  "    m = re.search(r'\\A\\\\[A-Za-z]+', latex[offset:])", "    m = re.search(r'\\\\[A-Za-z]+', latex[offset:])", 'CM2')
+V('cm2-skip', ['C18'], SH,
+  "    return cmdline.skip and re.search(r'\\A' + cmdline.skip + r'\\Z', fn)", "    return cmdline.skip and re.match(cmdline.skip, fn)", 'CM2')
+V('ps5-lazy', ['C17'], T2, "    lines = f.readlines()\n    f.close()\n    return lines", "    lines = f.readlines()\n    f.close()\n    return filter(str.strip, lines)", 'PS5')
+V('uk5-filter', ['C19'], P, "    def get_unknowns(self):\n        return self.unknowns",
+  "    def get_unknowns(self):\n        return [n for n in self.unknowns if n not in self.the_macros]", 'UK5')
+V('uk5-order', ['C19'], T2,
+  "        if opts.repl:\n            txt, pos = utils.replace_phrases(txt, pos, opts.repl)\n        if opts.unkn:\n            txt = '\\n'.join(p.get_unknowns()) + '\\n'\n            pos = [0 for n in range(len(txt))]\n",
+  "        if opts.unkn:\n            txt = '\\n'.join(p.get_unknowns()) + '\\n'\n            pos = [0 for n in range(len(txt))]\n        if opts.repl:\n            txt, pos = utils.replace_phrases(txt, pos, opts.repl)\n", 'UK5')
+V('em4-narrow', ['C08'], T2, "                return True, f.read()\n        except:\n            return False, ''",
+  "                return True, f.read()\n        except OSError:\n            return False, ''", 'EM4')
+V('em4-len-pos', ['C08'], MP, "            if buf.cur():\n                start = buf.cur().pos\n",
+  "            start = buf.cur().pos if buf.cur() else len(self.parser.latex)\n", 'EM4')
+V('at2-brace', ['C03'], P, "                if tok.txt == '{':\n                    # {...} protects space and ','",
+  "                if tok.txt == '{' and not val:\n                    # {...} protects space and ','", 'AT2')
+V('at2-slice-store', ['C03'], P,
+  "            self.extracted.append(self.expand_sequence(scanner.Buffer(toks)))",
+  "            n = len(self.extracted)\n            flow = self.expand_sequence(scanner.Buffer(toks))\n            self.extracted[n:] = [flow]", 'AT2')
+V('sc5-dropped-token', ['C03', 'C19'], S,
+  "            # next line not empty: progress further\n            self.pos = next_non_space\n",
+  "            # next line not empty: progress further\n            self.pos = next_non_space\n            if latex.startswith('%', self.pos):\n                self.scan_comment(latex, self.pos)\n", 'SC5')
+V('wl1-ext-cond', ['C18'], SH, "        if not f.endswith('.tex'):\n            f += '.tex'", "        if not os.path.splitext(f)[1]:\n            f += '.tex'", 'WL1')
